@@ -433,11 +433,110 @@ def deep_case(rng, depth, kind):
         else:
             e.ops += [f"new_obj {s}", f"add {s} 6b {cur}"]
         cur = s
-    e.ops += [f"reparse {cur} compact r0", f"reparse {cur} formatted r1", f"dup {cur} d0"]
+    e.ops += [f"reparse {cur} compact r0", f"dup {cur} d0"]
+    if kind == "a" or depth <= 64:
+        # formatted text of n nested objects has n^2/2 tabs; the model's list appends make that cubic-ish, so the
+        # formatted round trip of deep OBJECT nests is exercised at depth <= 64 only
+        e.ops += [f"reparse {cur} formatted r1"]
     if kind == "a":
         # cJSON_Compare walks nested objects twice per level (2^depth calls): only arrays are compared when deep
         e.ops += [f"cmp d0 {cur} 1", f"cmp r0 {cur} 0"]
     return e.case({"kind": "deep", "depth": depth})
+
+
+def container_paths(t, prefix=""):
+    """(reference suffix, subtree) of every container reachable through getter steps with unambiguous keys"""
+    out = []
+    if t[0] == "a":
+        out.append((prefix, t))
+        for i, x in enumerate(t[1]):
+            out += container_paths(x, f"{prefix}/i{i}")
+    elif t[0] == "o":
+        out.append((prefix, t))
+        lows = [k.lower() for k, _ in t[1]]
+        for k, x in t[1]:
+            if lows.count(k.lower()) == 1:
+                out += container_paths(x, f"{prefix}/k{hx(k)}")
+    return out
+
+
+def shaped_tree(rng):
+    """a tree holding containers with exactly 0, 1, 2 and 3 children, some nested in one-child chains"""
+    def leaf():
+        return gen_scalar(rng) if rng.random() < 0.7 else ("n", d2b(float(rng.randint(-5, 5))))
+
+    def cont(n, kind=None):
+        kind = kind or rng.choice("ao")
+        if kind == "a":
+            return ("a", [leaf() for _ in range(n)])
+        return ("o", [(b"m%d" % i, leaf()) for i in range(n)])
+    parts = [cont(n) for n in (0, 1, 1, 2, 3)]
+    # one-child chains: [[x]], {"k":[x]}, [{"k":x}], {"k":{"k":x}}
+    chain = leaf()
+    for _ in range(rng.randint(1, 3)):
+        chain = ("a", [chain]) if rng.random() < 0.5 else ("o", [(rng.choice([b"k", b"K1", b"", b"in"]), chain)])
+    parts.append(chain)
+    if rng.random() < 0.5:
+        parts.append(("a", [cont(1), cont(1, "o")]))
+    rng.shuffle(parts)
+    parts = parts[:rng.randint(1, len(parts))]
+    r = rng.random()
+    if r < 0.2:
+        return parts[0]                       # the container itself is the root
+    if r < 0.6:
+        return ("a", parts)
+    return ("o", [(b"p%d" % i, x) for i, x in enumerate(parts)])
+
+
+def dupmut_case(rng, parsed=False):
+    """continue the API history ON a duplicate (or a parsed tree) and on containers reached inside it"""
+    e = Emit()
+    t = shaped_tree(rng)
+    if parsed:
+        text = py_text(rng, t)
+        e.hint_text(text)
+        for b in tree_nums(t, []):
+            e.hint_num(b)
+        e.ops += [f"parse s {hx(text)}", "dump s"]
+        src = "s"
+    else:
+        src = e.build(t)
+    e.ops += [f"dup {src} d", "dump d", f"cmp d {src} 1"]
+    targets = ["d"] if rng.random() < 0.6 else ["d", src]
+    if parsed and rng.random() < 0.5:
+        targets = [src]
+    fresh = 0
+    for root in targets:
+        paths = container_paths(t)
+        rng.shuffle(paths)
+        for suffix, sub in paths[:rng.randint(1, 8)]:
+            ref = root + suffix
+            n = len(sub[1])
+            if sub[0] == "o":
+                fresh += 1
+                key = b"zz%d" % fresh
+                v = e.build(gen_scalar(rng) if rng.random() < 0.7 else ("a", []))
+                e.ops += [f"add {ref} {hx(key)} {v}", f"get {ref} {hx(key)}", f"has {ref} {hx(key)}"]
+                if rng.random() < 0.6:
+                    v2 = e.build(("z",))
+                    e.ops += [f"add {ref} {hx(key.upper() if rng.random() < 0.5 else key)} {v2}", f"destroy {v2}"]
+                if rng.random() < 0.3:
+                    e.ops += [f"remove {ref} {hx(key)}", f"has {ref} {hx(key)}"]
+                if n and rng.random() < 0.3:
+                    k0 = sub[1][0][0]
+                    e.ops += [f"has {ref} {hx(k0)}", f"get {ref} {hx(k0)}"]
+            else:
+                v = e.build(gen_scalar(rng) if rng.random() < 0.7 else ("o", []))
+                e.ops += [f"arr_size {ref}", f"arr_add {ref} {v}", f"arr_size {ref}", f"arr_get {ref} {n}"]
+                if rng.random() < 0.4:
+                    v2 = e.build(("b", True))
+                    e.ops += [f"arr_add {ref} {v2}", f"arr_get {ref} {n + 1}", f"arr_size {ref}"]
+                if rng.random() < 0.3:
+                    e.ops += [f"arr_remove {ref} 0", f"arr_size {ref}"]
+            e.ops += [f"dump {ref}"]
+        e.ops += [f"dump {root}", f"print {root} compact"]
+    e.ops += [f"cmp d {src} 1", "reparse d formatted r0", "dump r0", "cmp r0 d 1"]
+    return e.case({"kind": "dupmut", "parsed": parsed})
 
 
 def dump_tree(t):
